@@ -198,9 +198,12 @@ def unixtime(dt: datetime.date | datetime.time | datetime.timedelta) -> float:
 DateTimeT = t.TypeVar("DateTimeT", datetime.date, datetime.time, datetime.timedelta)
 
 
-@compat.lru_cache(maxsize=100_000)
 def dateparse(val: str, t: type[DateTimeT]) -> DateTimeT:
     """Parse a date string into a datetime object.
+
+    Note:
+        Parsing is memoized - except for a time-only string read as a date or a
+        datetime: that is placed on *today*, which the memo must not remember.
 
     Examples:
         >>> import datetime
@@ -220,31 +223,47 @@ def dateparse(val: str, t: type[DateTimeT]) -> DateTimeT:
             If `val` is not a date string or does not resolve to an instance of
             the target datetime type.
     """
+    parsed, today = _dateparse(val, t)
+    if today:
+        parsed, _ = _dateparse.__wrapped__(val, t)
+    return parsed
+
+
+@compat.lru_cache(maxsize=100_000)
+def _dateparse(val: str, t: type[DateTimeT]) -> tuple[DateTimeT, bool]:
+    # -> (the parsed value, whether it depends on the current date)
     # The date parser drops the UTC offset of a time-only string ("12:00+05:30").
     if issubclass(t, datetime.time):
         with contextlib.suppress(ValueError):
             aware = datetime.time.fromisoformat(val)
             if aware.tzinfo is not None:
-                return aware  # type: ignore[return-value]
+                return aware, False  # type: ignore[return-value]
     # A signed duration ("-P1D"): parse the magnitude, then negate.
     if val.startswith("-P") and issubclass(t, datetime.timedelta):
         magnitude = dateparse(val[1:], t)
         # Negate the exact underlying value (the parser's Duration derives its
         #   own attributes, and its negation, from float seconds).
         base = datetime.timedelta
-        return -base(  # type: ignore[return-value]
+        negated = -base(
             days=base.days.__get__(magnitude),
             seconds=base.seconds.__get__(magnitude),
             microseconds=base.microseconds.__get__(magnitude),
         )
+        return negated, False  # type: ignore[return-value]
     try:
         # When `exact=False`, the only two possibilities are DateTime and Duration.
         parsed: pendulum.DateTime | pendulum.Duration = pendulum.parse(val)  # type: ignore[assignment]
         normalized = _nomalize_dt(val=val, parsed=parsed, td=t)
-        return normalized
+        # A time-only string is placed on the current date.
+        today = (
+            isinstance(parsed, pendulum.DateTime)
+            and not issubclass(t, datetime.time)
+            and isinstance(pendulum.parse(val, exact=True), pendulum.Time)
+        )
+        return normalized, today
     except ValueError:
         if val.isdigit() or val.isdecimal():
-            return _normalize_number(numval=float(val), td=t)
+            return _normalize_number(numval=float(val), td=t), False
         raise
 
 
